@@ -27,7 +27,9 @@ Definition payload := N.          (* type+shape+doc+metadata of a value; 0 = not
 Record vinfo := mkVI { vi_name : name; vi_pay : payload; vi_bad : bool (* leaf deserialization raises *) }.
 Record tproto := mkTP { tp_name : name; tp_tok : N; tp_pay : payload (* TensorType(dtype)+shape *);
                         tp_bad_ctor : bool (* deserialize_tensor raises *);
-                        tp_bad_info : bool (* tensor.dtype / tensor.shape raises *) }.
+                        tp_bad_info : bool (* tensor.dtype / tensor.shape raises *);
+                        tp_fill : list (N * N) (* leaf level: value-info payload -> the payload after the
+                          missing type / shape have been taken from this tensor; see fill_pay *) }.
 
 Inductive gproto : Type :=
 | Gp (gname gtok : N) (ins outs : list vinfo) (inits : list tproto) (vis : list vinfo) (nodes : nprotos)
@@ -72,7 +74,7 @@ Record graph := mkG {
   g_inputs : list nat; g_outputs : list nat;
   g_inits : list (name * nat);       (* dict order *)
   g_nodes : list nat }.
-Record tensor := mkT { t_name : option name; t_tok : N; t_pay : payload; t_bad_info : bool }.
+Record tensor := mkT { t_name : option name; t_tok : N; t_pay : payload; t_bad_info : bool; t_fill : list (N * N) }.
 Record heap := mkH { hv : list value; hn : list node; hg : list graph; ht : list tensor }.
 Record func := mkF { f_id : N; f_tok : N; f_graph : nat }.
 Record model := mkM { m_tok : N; m_graph : nat; m_funcs : list func }.
@@ -109,8 +111,9 @@ Definition with_ngraph (g : option nat) (y : node) : node :=
 (* Value(name=...) *)
 Definition alloc_value (h : heap) (nm : option name) (c : option nat) (p : payload) : heap * nat :=
   (set_hv h (hv h ++ [mkV nm None [] None false false false c p]), length (hv h)).
-Definition alloc_tensor (h : heap) (nm : option name) (tok : N) (pay : payload) (bad : bool) : heap * nat :=
-  (mkH (hv h) (hn h) (hg h) (ht h ++ [mkT nm tok pay bad]), length (ht h)).
+Definition alloc_tensor (h : heap) (nm : option name) (tok : N) (pay : payload) (bad : bool) (fl : list (N * N))
+  : heap * nat :=
+  (mkH (hv h) (hn h) (hg h) (ht h ++ [mkT nm tok pay bad fl]), length (ht h)).
 
 (* Python dict: assignment to an existing key keeps its position *)
 Fixpoint dict_set {A} (k : N) (a : A) (l : list (N * A)) : list (N * A) :=
@@ -252,6 +255,21 @@ Definition apply_info (h : heap) (i : vinfo) (v : nat) : res heap :=
 Definition apply_info_opt (h : heap) (k : name) (vis : list vinfo) (v : nat) : res heap :=
   match vi_lookup k vis with Some i => apply_info h i v | None => Ok h end.
 
+(* value_info applied to a (non-input) initializer: a type / shape the entry does not provide is taken
+   from the tensor (serde._deserialize_graph, initializer branch).  An entry with no type and no shape
+   (payload 0 or doc/metadata only) is looked up in the tensor's fill table like any other; the default
+   covers the two frequent cases: nothing in the entry -> the tensor's payload; otherwise the entry's. *)
+Definition fill_pay (t : tproto) (vpay : payload) : payload :=
+  match lookup vpay (tp_fill t) with
+  | Some r => r
+  | None => if N.eqb vpay 0 then tp_pay t else vpay
+  end.
+Definition apply_info_init (h : heap) (t : tproto) (vis : list vinfo) (v : nat) : res heap :=
+  match vi_lookup (tp_name t) vis with
+  | Some i => if vi_bad i then Raise ValueError else Ok (updv h v (with_info (fill_pay t (vi_pay i))))
+  | None => Ok h
+  end.
+
 (* inputs = [Value(name=info.name) ...]; then deserialize_value_info_proto for each *)
 Fixpoint alloc_inputs (h : heap) (ins : list vinfo) : heap * list nat :=
   match ins with
@@ -276,7 +294,7 @@ Fixpoint alloc_tensors (h : heap) (ts : list tproto) : res (heap * list nat) :=
   | [] => Ok (h, [])
   | t :: r =>
     if tp_bad_ctor t then Raise ValueError
-    else let '(h1, c) := alloc_tensor h (Some (tp_name t)) (tp_tok t) (tp_pay t) (tp_bad_info t) in
+    else let '(h1, c) := alloc_tensor h (Some (tp_name t)) (tp_tok t) (tp_pay t) (tp_bad_info t) (tp_fill t) in
          match alloc_tensors h1 r with Ok (h2, cs) => Ok (h2, c :: cs) | Raise e => Raise e end
   end.
 Fixpoint deser_inits (h : heap) (tbl : table) (vis : list vinfo) (ts : list tproto) (cs : list nat)
@@ -292,7 +310,7 @@ Fixpoint deser_inits (h : heap) (tbl : table) (vis : list vinfo) (ts : list tpro
          | None =>
            if tp_bad_info t then Raise ValueError
            else let '(h1, v) := alloc_value h (Some k) (Some c) (tp_pay t) in
-                match apply_info_opt h1 k vis v with
+                match apply_info_init h1 t vis v with
                 | Raise e => Raise e
                 | Ok h2 =>
                   match deser_inits h2 ((k, v) :: tbl) vis r cr with
@@ -652,7 +670,7 @@ Fixpoint fn_out_vis (h : heap) (outs : list nat) : list vinfo :=
               end
   end.
 Definition set_tname (h : heap) (c : nat) (k : option name) : heap :=
-  mkH (hv h) (hn h) (hg h) (upd (ht h) c (fun t => mkT k (t_tok t) (t_pay t) (t_bad_info t))).
+  mkH (hv h) (hn h) (hg h) (upd (ht h) c (fun t => mkT k (t_tok t) (t_pay t) (t_bad_info t) (t_fill t))).
 (* initializers: value_info (unless also an input), skip if no const_value, rename tensor, emit *)
 Fixpoint ser_inits (h : heap) (in_names : list (option name)) (l : list (name * nat))
   : res (heap * list tproto * list vinfo) :=
@@ -672,7 +690,7 @@ Fixpoint ser_inits (h : heap) (in_names : list (option name)) (l : list (name * 
         | None => Raise AssertionError
         | Some t =>
           let h1 := set_tname h c (v_name x) in
-          let tp := mkTP (match v_name x with Some k => k | None => 0%N end) (t_tok t) (t_pay t) false (t_bad_info t) in
+          let tp := mkTP (match v_name x with Some k => k | None => 0%N end) (t_tok t) (t_pay t) false (t_bad_info t) (t_fill t) in
           match ser_inits h1 in_names r with
           | Ok (h2, ts, vs) => Ok (h2, tp :: ts, vi ++ vs) | Raise e => Raise e end
         end
